@@ -56,6 +56,8 @@ fn clip(s: &str, n: usize) -> String {
 
 /// top-level keys every JSON record carries
 const ALWAYS_PRESENT: &[&str] = &["timestamp", "level", "target", "name"];
+/// field names that a flattened record cannot put at the top level: they live under "fields"
+const SHADOWED_NAMES: &[&str] = &["timestamp", "level", "target", "name", "fields"];
 const RESERVED: &[&str] = &["timestamp", "level", "target", "message", "name", "span_id", "parent_id", "thread_id", "thread_name"];
 const LEVELS: [(Level, &str); 5] = [(Level::ERROR, "ERROR"), (Level::WARN, "WARN"), (Level::INFO, "INFO"), (Level::DEBUG, "DEBUG"), (Level::TRACE, "TRACE")];
 
@@ -87,7 +89,7 @@ fn gen_event(rng: &mut Rng, flatten: bool) -> (LogEvent, usize) {
     // that name in a record that lacks the core value is indistinguishable from the core value by design)
     let key = loop {
       let k = if rng.chance(1, 8) {
-        rng.pick(ALWAYS_PRESENT).to_string()
+        rng.pick(SHADOWED_NAMES).to_string()
       } else if rng.chance(1, 2) {
         strgen::plain(rng, 1, 8)
       } else {
@@ -229,8 +231,8 @@ fn check_json(ev: &LogEvent, flatten: bool, res: &mut ShardResult) -> Vec<Findin
   }
   if flatten {
     for (k, v) in &ev.fields {
-      if ALWAYS_PRESENT.contains(&k.as_str()) {
-        // shadowed by a core key: the core key keeps its value (checked above), the field lives under "fields"
+      if SHADOWED_NAMES.contains(&k.as_str()) {
+        // shadowed by a core key (or named like the nested object itself): the core key keeps its value (checked above), the field lives under "fields"
         let nested = j.get("fields").and_then(|f| f.get(k));
         if nested.is_none() {
           out.push(finding("json", "field-lost", "flattened-name-collides-with-core-key",
